@@ -399,6 +399,17 @@ impl World {
         self.settle();
     }
 
+    /// The held inner instance #idx fails its readiness (next poll_ready returns an error).
+    pub fn release_ready_err(&mut self, idx: usize) {
+        self.begin_step();
+        let w = self.inner.lock().unwrap().release_ready_err(idx);
+        if let Some(w) = w {
+            w.wake();
+        }
+        self.note(format!("inner instance held #{idx} reports a readiness error"));
+        self.settle();
+    }
+
     /// Let tokio-spawned internal tasks run until nothing changes (bounded), without
     /// letting virtual time move.
     pub fn settle(&mut self) {
